@@ -26,7 +26,7 @@ def spacetime_case(draw, kinds=("Wp", "Wp", "Wp", "Wn", "F", "KS", "PP"),
                    static=False, trim=3):
     kind = draw(st.sampled_from(list(kinds)))
     c = dict(kind=kind)
-    if kind in ("Wp", "FLp"):
+    if kind in ("Wp", "FLp", "Wt0"):
         order = draw(st.sampled_from(list(orders_p)))
         N = [draw(st.integers(*np_range)) for _ in range(3)]
         h = [draw(dy(0.25, 0.45)) for _ in range(3)]
@@ -36,6 +36,11 @@ def spacetime_case(draw, kinds=("Wp", "Wp", "Wp", "Wn", "F", "KS", "PP"),
         if kind == "Wp":
             spec = draw(S["wavy"](periodic_L=L, mask=MASKS[mname], kmax=1.0,
                                   static=static))
+        elif kind == "Wt0":
+            # shift vanishes on the slice t = 0, its t-derivative does not
+            mname = "zero_shift"
+            spec = draw(S["wavy"](periodic_L=L, mask=MASKS[mname], kmax=1.0,
+                                  tshift=True))
         else:
             spec = draw(S["fl"]())
         c.update(boundary="periodic", N=N, h=h, mask=mname)
@@ -64,8 +69,9 @@ def spacetime_case(draw, kinds=("Wp", "Wp", "Wp", "Wn", "F", "KS", "PP"),
             raise ValueError(kind)
     x0 = [draw(dy(-1.0, 0.0, 64)) for _ in range(3)] if kind != "KS" \
         else [-round(32 * l) / 64 for l in L]
-    c.update(spec=spec, t=draw(f(-1, 1)), order=order, x0=x0, L=L,
-             trim=trim)
+    c.update(spec=spec, t=0.0 if kind == "Wt0" else draw(f(-1, 1)),
+             order=order, x0=x0, L=L, trim=trim,
+             omit_defaults=(kind == "Wt0" or draw(st.booleans())))
     return c
 
 
@@ -82,6 +88,24 @@ def generic_W(order=4, t=0.3):
              k=[-0.5] + k([0, 1, -1]), phi=2.0)]))
     return dict(spec=W, t=t, x0=[-0.375, -0.75, -0.25], h=hp, N=Np, L=Lp,
                 boundary="periodic", mask="generic", kind="Wp", order=order)
+
+
+def generic_Wt0(order=4):
+    """alpha != 1, gamma generic, beta = 0 on the slice but d_t beta != 0;
+    defaults (the zero shift) are omitted from the inputs."""
+    c = generic_W(order, t=0.0)
+    k = c["spec"]["params"]["modes"][0]["k"]
+    modes = []
+    for m in c["spec"]["params"]["modes"]:
+        A = np.array(m["A"], float)
+        A[0, 1:] = 0.0
+        A[1:, 0] = 0.0
+        modes.append(dict(m, A=A.tolist()))
+    c["spec"] = dict(family="W", params=dict(
+        modes=modes, tshift=[dict(b=[0.05, -0.04, 0.03], k=k[1:], phi=0.7,
+                                  w=1.2)]))
+    c.update(mask="zero_shift", kind="Wt0", omit_defaults=True)
+    return c
 
 
 def generic_KS(order=4, trim=3, t=0.2):
